@@ -205,4 +205,18 @@ CLAIMS = {
               "Trusted: the parking predicate of DESIGN C16.Q4 as the meaning of 'requires parking'; parking more than required is allowed."),
         technique="static analysis: literal table evaluation with relational checks between tables; quantifier / iteration-domain classification of the derivation filters",
     ),
+    "C18": dict(
+        text=("Claimed in part. Decided statically: the geometry of the drawing -- pivot x = start_time, y = -(row of identifier.id in the requested "
+              "order) x spacing, width = duration, compared in affine normal form; construct_transform built from exactly these; all 24 "
+              "construct_transform call sites of the 20+ draw factories take identifier AND time component from the drawn operation itself "
+              "(who-passes-what scan); bars / headers on the row of their index; figure width max(1, latest end)+1 (shared C04.D3); "
+              "reorder_indices rejects exactly the orders naming an unoccupied channel and returns requested ++ remaining-in-order; the label "
+              "map is written and read by ROW index, states follow the rows; compact drawing runs inside the scoped duration override, whose "
+              "enter/exit invalidate every memo and restore the entry value (shared C03.H1/H3), and drawing entry points write no circuit "
+              "state (shared C03.H2)."),
+        note=("NOT decided: that matplotlib rendering succeeds for every circuit; kinds of two-qubit operations the bulk factory silently skips are "
+              "reported only. Known finding (recorded, exit 0): reading circuit.operations while drawing re-links first operations of nested "
+              "blocks (same defect as C03.H2)."),
+        technique="static analysis: affine normal forms of the geometry, argument-provenance scan over factory call sites, Boolean/loop forms of the ordering helpers, shared effect rules",
+    ),
 }
